@@ -21,7 +21,8 @@ package lisp
 //@   ensures out(res, e, world()) == evalOut(ast, env, old(world())) @assume
 //@   loop 1 tailrec evalStep(ast, env, world(), OUT) @C01,C03,C08,C12,C18
 //@   loop 2 invariant i % 2 == 0 && 0 <= i && i <= len(arr1) && world() == letW(arr1, i, let_env, atentry(world())) && letOK(arr1, i, let_env, atentry(world())) @C01,C03,C08,C12,C18
-//@   at "switch ast := ast.(type) {" assert ctx == nil || !done(ctx) @C07
+//@   at "return eval_ast(ctx, ast, env)"#1 assert ctx == nil || !done(ctx) @C07
+//@   at "ast, e = macroexpand(ctx, ast, env)" assert ctx == nil || !done(ctx) @C07
 //@   loop 1 readsat "defer func() { _, _ = do(ctx, finallyDo, 0, 0, env) }()"
 //@   loop 1 readsat "let_env := NewSubordinateEnv(env)"
 //@   loop 1 continue evalOut(ast, env, world())
